@@ -125,6 +125,40 @@ def group_case(out: Outcome, rng, classes: list[str], share_cfg: bool, with_cb, 
     out.case({"classes": classes, "shared_config": share_cfg, "history_callback": with_cb, "lens": lens, "h": hash(str(streams)) & 0xFFFFFF})
 
 
+def sparse_observation_case(out: Outcome, rng, cls: str, runners: list) -> None:
+    """outputs after t updates are a function of the configuration and those t values ONLY - in particular not of how often somebody looked:
+    one instance is read after every update, a twin only at a few random points (and after a reset() issued while nothing had been read for a
+    while); wherever the twin is read it must show exactly what the other shows, and it goes through the model comparison too"""
+    p = gen.rand_params(rng, cls)
+    xs = gen.stream_for(rng, cls, rng.randint(30, 160))
+    reset_at = rng.choice([None, rng.randint(5, len(xs) - 5)])
+    look = set(rng.sample(range(len(xs)), k=min(len(xs), rng.randint(2, 6)))) | {len(xs) - 1}
+    seed = rng.randint(0, 2**31 - 1)
+    a, b = dets.Runner("a", cls, p), dets.Runner("a", cls, p)
+    if a.det is None:
+        return
+    for r, sparse in ((a, False), (b, True)):
+        np.random.seed(seed)
+        for i, x in enumerate(xs):
+            if reset_at == i:
+                if sparse:
+                    r.det.reset()
+                    r.lines.append("r a")
+                    r.obs.append(None)
+                else:
+                    r.reset()
+            r.update(x, observe=(not sparse) or i in look)
+            if r.err is not None:
+                break
+    rep = {"class": cls, "params": p, "stream": xs, "reset_before_index": reset_at, "read_after_indices": sorted(look)}
+    for k, (u, v) in enumerate(zip(a.obs, b.obs)):
+        if v is not None and u != v:
+            out.violation(f"{cls}: an instance that was read only occasionally shows {v} after operation {k}, the instance read after every update shows {u}", rep)
+            break
+    runners.append(b)
+    out.case({"class": cls, "sparse_observation": True, "n": len(xs), "looks": len(look), "reset": reset_at is not None})
+
+
 def heap_scenarios(out: Outcome, rng, n_random: int) -> None:
     """object-graph correspondence: the heap model (`FrourosModel/Heap.lean`, the model the isolation / purity / transparency theorems of
     `Props/C16b.lean` are about) and the real objects are driven through the same scenario of constructor / update / reset / fit / compare
@@ -276,6 +310,9 @@ def run(out: Outcome) -> None:
         # configuration - BOCD's model object - must have been copied by the constructor AND by reset())
         group_case(out, rng, [c, c], share_cfg=True, with_cb=False, short=False, runners=runners, limit=2, pre_reset=False)
         group_case(out, rng, [c, c], share_cfg=True, with_cb=rng.choice([False, "single", "two"]), short=False, runners=runners, limit=2, pre_reset=True)
+    for c in dets.CLASSES:
+        for _ in range(3 if thorough else 1):
+            sparse_observation_case(out, rng, c, runners)
     heap_scenarios(out, rng, 60 if thorough else 20)
     before = len(out.mismatches)
     corr.compare_batch(out, runners, rtol=1e-8)
